@@ -280,3 +280,22 @@ Proof.
   - split; [exact Hc | split; [exact HL | exact Hlen]].
   - split; [exact Hc | now apply matches_nil_r].
 Qed.
+
+Theorem flush_success_resets dirty st :
+  reachable dirty st ->
+  let st' := fst (wstep dirty st OFlush) in
+  let ob := snd (wstep dirty st OFlush) in
+  o_err ob = E_NONE -> written_len st' = 0 /\ o_len ob = 0 /\ werr st' = None.
+Proof.
+  intros Hr. destruct (reachable_sim _ _ Hr) as (s & HS). cbn zeta.
+  apply (written_len_zero_after_flush dirty st s HS).
+Qed.
+
+Theorem writer_no_crash_classes dirty w0 l0 h :
+  init_pair w0 l0 ->
+  Forall (fun ob => err_known (o_err ob) /\ o_err ob <> E_PANIC /\ o_err ob <> E_FUEL /\ o_err ob <> E_SHORT)
+         (snd (wrun dirty w0 h)).
+Proof.
+  intros Hi. eapply Forall_impl; [|exact (writer_no_crash dirty w0 l0 h Hi)].
+  cbn beta. intros ob H. split; [exact H | now apply err_known_not_crash].
+Qed.
